@@ -541,6 +541,20 @@ func c14ClausePrograms() []struct{ setup, sql string } {
 		va := "VAR @p1 := 1; VAR @p2 := 2; VAR @p3 := 3; " + strings.NewReplacer("$1", "@p1", "$2", "@p2", "$3", "@p3").Replace(t) + "; PRINT @p1; PRINT @p2; PRINT @p3;"
 		out = append(out, struct{ setup, sql string }{"", lit}, struct{ setup, sql string }{"", va})
 	}
+	// built-in commands and flag statements evaluate an expression, convert it and release the temporary
+	for _, q := range []string{
+		"VAR @d := '.'; CHDIR @d; CHDIR '.'; PRINT @d; SELECT a, b FROM t",
+		"VAR @s := 'x%sy'; PRINTF @s USING 'a'; PRINTF 'l%s' USING @s; PRINT @s; ECHO @s; PRINT @s",
+		"VAR @f := '%Y'; SET @@DATETIME_FORMAT TO @f; ADD @f TO @@DATETIME_FORMAT; REMOVE @f FROM @@DATETIME_FORMAT; PRINT @f; SHOW @@DATETIME_FORMAT",
+		"VAR @e := 'SELECT 1'; EXECUTE @e; EXECUTE @e; PRINT @e",
+		"VAR @n := 2; SET @@CPU TO @n; SET @@LIMIT_RECURSION TO @n; PRINT @n; VAR @w := 1.5; SET @@WAIT_TIMEOUT TO @w; PRINT @w",
+		"VAR @z := 'UTC'; SET @@TIMEZONE TO @z; PRINT @z; VAR @b := TRUE; SET @@ENCLOSE_ALL TO @b; PRINT @b; VAR @q := ','; SET @@DELIMITER TO @q; PRINT @q",
+		"VAR @p := 't.csv'; SHOW FIELDS FROM t; PRINT @p; SHOW TABLES; SHOW VIEWS; SHOW CURSORS; SHOW FUNCTIONS; SHOW STATEMENTS; SHOW FLAGS; SHOW ENV; SHOW RUNINFO",
+		"VAR @x := 'a'; SET @%C14VAR TO @x; PRINT @%C14VAR; UNSET @%C14VAR; PRINT @x",
+		"VAR @m := 'oops'; TRIGGER ERROR 'E: ' || @m",
+	} {
+		out = append(out, struct{ setup, sql string }{"", q})
+	}
 	// table lists: the FROM clause of a stored statement is folded into joins at every evaluation
 	for _, q := range []string{
 		"SELECT t.a, u.c FROM t, u WHERE t.a = u.a",
@@ -590,6 +604,7 @@ func (r *c14Runner) familyTwice() {
 			}
 		}
 		r.c.Eval("twice|"+tc.sql, true)
+		c14CheckPools(r.c, tc.sql, payload)
 		cls := "twice:" + strings.Fields(tc.sql)[0]
 		if after := astKey(stmts); after != before {
 			r.c.Violate("syntax-tree-edited-by-evaluation:"+cls, fmt.Sprintf("%s: the stored syntax tree differs after execution", tc.sql), payload)
@@ -616,6 +631,46 @@ var c14Snapshots = []struct{ sql, want string }{
 		"1\nk\n10\n20\n"},
 }
 
+// the same data read through two references in one statement must give each reference the stored values: the
+// statement with one shared source (common table expression, declared view, cached file table) is compared with
+// the statement in which every reference has a source of its own
+var c14Reread = [][2]string{
+	{"WITH c AS (SELECT a, b FROM t) SELECT b FROM c UNION ALL SELECT a FROM c", "SELECT b FROM (SELECT a, b FROM t) AS c UNION ALL SELECT a FROM (SELECT a, b FROM t) AS c"},
+	{"WITH c AS (SELECT a, b FROM t) SELECT a FROM c UNION ALL SELECT b FROM c", "SELECT a FROM (SELECT a, b FROM t) AS c UNION ALL SELECT b FROM (SELECT a, b FROM t) AS c"},
+	{"WITH c AS (SELECT a, b FROM t) SELECT x.b, y.a, y.b FROM (SELECT b, a FROM c) AS x JOIN c AS y ON x.a = y.a", "SELECT x.b, y.a, y.b FROM (SELECT b, a FROM t) AS x JOIN (SELECT a, b FROM t) AS y ON x.a = y.a"},
+	{"WITH c AS (SELECT a, b FROM t) SELECT a, b FROM c WHERE b IN (SELECT b FROM c WHERE a > 1)", "SELECT a, b FROM t WHERE b IN (SELECT b FROM (SELECT a, b FROM t) AS c WHERE a > 1)"},
+	{"WITH c AS (SELECT a, b FROM t) SELECT a, (SELECT MAX(b) FROM c AS d WHERE d.a <= c.a) FROM c", "SELECT a, (SELECT MAX(b) FROM (SELECT a, b FROM t) AS d WHERE d.a <= c.a) FROM t AS c"},
+	{"DECLARE w VIEW AS SELECT a, b FROM t; SELECT b FROM w UNION ALL SELECT a FROM w; SELECT a, b FROM w", "SELECT b FROM t UNION ALL SELECT a FROM t; SELECT a, b FROM t"},
+	{"SELECT b FROM t UNION ALL SELECT a FROM t; SELECT x.b, y.a FROM t AS x JOIN t AS y ON x.a = y.a; SELECT a, b FROM t", "SELECT b FROM (SELECT a, b FROM t) AS s UNION ALL SELECT a FROM (SELECT a, b FROM t) AS s; SELECT x.b, y.a FROM (SELECT a, b FROM t) AS x JOIN (SELECT a, b FROM t) AS y ON x.a = y.a; SELECT a, b FROM (SELECT a, b FROM t) AS s"},
+	{"WITH RECURSIVE r (n, m) AS (SELECT 1, 10 UNION ALL SELECT n + 1, m + 10 FROM r WHERE n < 3) SELECT m FROM r UNION ALL SELECT n FROM r", "SELECT 10 UNION ALL SELECT 20 UNION ALL SELECT 30 UNION ALL SELECT 1 UNION ALL SELECT 2 UNION ALL SELECT 3"},
+}
+
+func (r *c14Runner) familyReread() {
+	dir := core.Scratch("c14reread")
+	for i, pair := range c14Reread {
+		if !r.c.Mine(int64(i)) {
+			continue
+		}
+		var outs [2]string
+		for k := 0; k < 2; k++ {
+			drv.ClearDir(dir)
+			drv.WriteFiles(dir, map[string]string{"t.csv": "a,b\n1,x\n2,y\n3,x\n4,z\n"})
+			env := drv.NewText(dir)
+			env.Tx.Flags.ExportOptions.Format = option.CSV
+			env.Tx.Flags.ExportOptions.WithoutHeader = true
+			env.Tx.Flags.SetQuiet(true)
+			res := env.Exec(pair[k])
+			env.Close()
+			outs[k] = strings.ReplaceAll(res.Out, "\r", "") + "|err=" + errText(res.Err)
+		}
+		r.c.Eval("reread|"+pair[0], true)
+		if outs[0] != outs[1] {
+			r.c.Violate("shared-source-read-twice-differs:"+fmt.Sprint(i), fmt.Sprintf("%s\n prints %q;\nthe same statement with a source of its own for every reference\n%s\n prints %q", pair[0], clip(outs[0]), pair[1], clip(outs[1])),
+				c14Payload{Family: "reread", SQL: pair[0]})
+		}
+	}
+}
+
 func (r *c14Runner) familySnapshot() {
 	dir := core.Scratch("c14snap")
 	for i, tc := range c14Snapshots {
@@ -638,14 +693,29 @@ func (r *c14Runner) familySnapshot() {
 	}
 }
 
+// c14CheckPools reports objects that were handed to value.Discard while they were already in their pool.
+func c14CheckPools(c *core.Ctx, what string, payload any) {
+	for _, d := range vrt.DoubleDiscards() {
+		c.Violate("double-discard:"+d, fmt.Sprintf("%s: an object was handed to value.Discard twice without being re-issued in between (%s): the pool now holds it twice and two later values will be one object", what, d), payload)
+	}
+}
+
 func c14Run(c *core.Ctx) {
+	vrt.TrackPools(true)
+	defer vrt.TrackPools(false)
 	r := newC14Runner(c)
 	defer r.close()
 	r.familySnapshot()
+	c14CheckPools(c, "family snapshot", c14Payload{Family: "snapshot"})
 	r.familyTwice()
+	r.familyReread()
+	c14CheckPools(c, "family reread", c14Payload{Family: "reread"})
 	r.familyFnCell(c.Thorough())
+	c14CheckPools(c, "family fn-cell (functions over table cells)", c14Payload{Family: "fn-cell"})
 	r.familyFnLit(c.Thorough())
+	c14CheckPools(c, "family fn-lit (functions over literals)", c14Payload{Family: "fn-lit"})
 	r.familyFnVar(c.Thorough())
+	c14CheckPools(c, "family fn-var (functions over variables)", c14Payload{Family: "fn-var"})
 	if c.WantSample() {
 		c.Sample(map[string]any{"family": "fn-var", "example": "SELECT SUBSTRING(@a, @b, @c) with every (a, b, c) over the alphabet, evaluated twice"})
 	}
